@@ -18,10 +18,16 @@ class Fault(Exception):
     """raised by a catalogue callback when a fault is injected"""
 
 
+class FaultStop(Fault, StopIteration):
+    """an injected fault that also is a StopIteration: a user function's exception must never be mistaken for the end of an
+    iterator the operator happens to be advancing"""
+
+
 class Ctx:
     """Per-run context: scheduler, random choices, event log, sources."""
 
-    def __init__(self, seed: int, fault_at: Optional[int] = None, hot: bool = False):
+    def __init__(self, seed: int, fault_at: Optional[int] = None, hot: bool = False, fault_kind: Optional[str] = None):
+        self.fault_cls = FaultStop if fault_kind == "stop" else Fault
         from reactivex.testing import TestScheduler
         self.rnd = random.Random(seed)
         self.s = TestScheduler()
@@ -47,7 +53,7 @@ class Ctx:
                 self.ncb += 1
                 if self.fault_at is not None and self.ncb == self.fault_at:
                     self.ev(e="cb", r=True, o=False)
-                    raise Fault(f"injected at callback #{self.ncb}")
+                    raise self.fault_cls(f"injected at callback #{self.ncb}")
             self.ev(e="cb", r=False, o=obs)
             return f(*a)
         return w
@@ -203,6 +209,10 @@ def _install():
     _reg("concat", "any", lambda c: A(c.source("num", "other")))
     _reg("catch", "any", lambda c: A(c.source("num", "other")) if c.coin() else A(c.cb(c.memo(lambda e, src: c.inner()))), "recover")
     _reg("on_error_resume_next", "any", lambda c: A(c.source("num", "other")), "recover")
+    # the continuation given as a factory (called with the error, or None): the factory is a user function - when it raises,
+    # the pipeline fails with that exception (nothing is left to resume with), so this entry is not "recover"
+    _reg("on_error_resume_next_factory", "any", lambda c: (lambda src: A(c.cb(lambda e=None: src)))(c.source("num", "other")),
+         real="on_error_resume_next")
     _reg("repeat", "any", lambda c: A(c.rnd.randint(0, 2)), "recover")
     _reg("retry", "any", lambda c: A(c.rnd.randint(1, 2)), "recover")
     _reg("while_do", "any", lambda c: A(c.cb(lambda _: c.rnd.random() < 0.4)), "recover")
